@@ -42,15 +42,46 @@ def run(ctx):
         if e.get('name') == 'BuildResult::CommandCompleted::CommandCompleted':
             ctx.check('C20.W1', mentions_var(e.get('args'), 'output'), wc.name, 'output:not-in-result', wc.where(e), 'the output travels in the CommandCompleted result')
     bef = prog.fn('StatusPrinter::BuildEdgeFinished')
-    prints = [e for e in bef.calls('LinePrinter::PrintOnNewLine') if mentions_var(e.get('args'), 'output') or mentions_var(e.get('args'), 'final_output')]
-    ctx.check('C20.W1', len(prints) == 2, bef.name, 'output:print-sites', bef.loc, 'the output is printed as is or with ANSI codes stripped (2 alternative sites)')
-    if len(prints) == 2:
-        ctx.check('C20.W1', not bef.ev_reaches(prints[0], prints[1]) and not bef.ev_reaches(prints[1], prints[0]), bef.name,
-                  'output:printed-twice', bef.loc, 'the two print sites are alternatives (never both)')
+    # the sites that print the command's output: a PrintOnNewLine whose text is the `output` parameter itself or something
+    # derived from it alone (the ANSI-stripped copy), however many locals / pointers carry it there
+    outp = [p_['n'] for p_ in bef.params if p_['n'] == 'output'] or ['output']
+
+    def derived_from_output(d):
+        seen_, todo, texts = set(), [x['n'] for x in walk(d) if isinstance(x, dict) and x.get('k') == 'var'], []
+        if any(v == outp[0] for v in todo):
+            return True
+        while todo:
+            v = todo.pop()
+            if v in seen_:
+                continue
+            seen_.add(v)
+            for x in bef.events():
+                src = None
+                if x['k'] == 'decl' and x['n'] == v:
+                    src = x.get('init')
+                elif x['k'] == 'asg' and isinstance(strip(x['l']), dict) and strip(x['l']).get('k') == 'var' and strip(x['l'])['n'] == v:
+                    src = x.get('r')
+                elif x['k'] == 'call' and x.get('op') == '=' and isinstance(strip(x.get('recv')), dict) and strip(x['recv']).get('k') == 'var' and strip(x['recv'])['n'] == v:
+                    src = (x.get('args') or [None])[0]
+                if src is None:
+                    continue
+                for y in walk(src):
+                    if isinstance(y, dict) and y.get('k') == 'var':
+                        if y['n'] == outp[0]:
+                            return True
+                        todo.append(y['n'])
+        return False
+    header = lambda e: any(mentions_call(a, 'Edge::EvaluateCommand') or mentions_var(a, 'failed') or mentions_var(a, 'outputs') for a in e.get('args') or [])
+    prints = [e for e in bef.calls('LinePrinter::PrintOnNewLine') if not header(e) and derived_from_output(e.get('args'))]
+    ctx.check('C20.W1', len(prints) >= 1, bef.name, 'output:print-sites', bef.loc, 'the output is printed (as is, or with ANSI codes stripped): %d site(s)' % len(prints))
+    for i_, a_ in enumerate(prints):
+        for b_ in prints[i_ + 1:]:
+            ctx.check('C20.W1', not bef.ev_reaches(a_, b_) and not bef.ev_reaches(b_, a_), bef.name,
+                      'output:printed-twice', bef.where(b_), 'two print sites of the output are alternatives (never both)')
     for e in prints:
         guarded(ctx, 'C20.W1', bef, e, lambda a: 'output.empty()' in dstr(a), False, 'only a non-empty output is printed', construct='output:empty-printed')
-    fo = [e for e in bef.events('decl') if e['n'] == 'final_output']
-    ctx.check('C20.W1', len(fo) == 1 and mentions_call(fo[0].get('init'), 'StripAnsiEscapeCodes') and mentions_var(fo[0].get('init'), 'output'),
+    strips = list(bef.calls('StripAnsiEscapeCodes'))
+    ctx.check('C20.W1', len(strips) >= 1 and all(mentions_var(x.get('args'), outp[0]) for x in strips),
               bef.name, 'output:stripped-source', bef.loc, 'the stripped variant is derived from the same output')
     fcmd = prog.fn('Builder::FinishCommand')
     calls = list(fcmd.calls('Status::BuildEdgeFinished'))
@@ -59,7 +90,17 @@ def run(ctx):
     who_may_call(ctx, 'C20.W1', 'Status::BuildEdgeFinished', {'Builder::FinishCommand': 'the only completion site'}, 'completion report')
     st = prog.fn('Subprocess::Start')
     dups = [e for e in st.calls('posix_spawn_file_actions_adddup2')]
-    targets = sorted(const_value(e['args'][2]) for e in dups if const_value(e['args'][2]) is not None)
+    targets = [const_value(e['args'][2]) for e in dups if const_value(e['args'][2]) is not None]
+    for e in dups:
+        # `for (fd : {1, 2}) adddup2(.., pipe, fd)`: the targets are the elements of the constant table the loop walks
+        t_ = strip(e['args'][2])
+        if const_value(t_) is None and isinstance(t_, dict) and t_.get('k') == 'idx':
+            b_ = strip(t_.get('b'))
+            for gname, g in prog.globals.items():
+                if isinstance(g, dict) and isinstance(g.get('cvtab'), list) and isinstance(b_, dict) and b_.get('k') == 'var' and \
+                        (gname == b_['n'] or gname.endswith('::' + b_['n'])):
+                    targets += [v for v in g['cvtab'] if isinstance(v, int)]
+    targets = sorted(targets)
     srcs = {dstr(e['args'][1]) for e in dups}
     ctx.check('C20.W1', targets == [1, 2] and len(srcs) == 1, st.name, 'child:stdout-stderr-pipe', st.loc,
               'fd 1 and fd 2 of the child are dup\'ed from the same pipe end (%s -> %s)' % (sorted(srcs), targets))
